@@ -9,7 +9,7 @@ from ..values import Num, Const, Tup, Term, Obj, P, Val, Kw, veq, walk_vals, arr
 from ..model import AnalysisError
 from ..symeval import Evaluator
 from ..weaver_model import WeaverModel
-from .common import show, REPO_RESULT_KIND, S, ModSpec, same, arr_term, targ, SAU
+from .common import show, REPO_RESULT_KIND, S, ModSpec, same, arr_term, targ, SAU, inline_except, SCANS
 from .c08 import model, last_stores
 from .c20 import dispatch_fallthrough
 
@@ -38,16 +38,18 @@ def check_dispatch(ctx):
     x, y, nx = arr_param('x', length=L), arr_param('y', length=L), arr_param('new_x', length=Ln)
     kw = Term('param', (Const('**kwargs'),), kind='dict')
     for m, src in METHOD_SPECS.items():
-        ev = Evaluator(ctx.prog, inline=lambda f: False, opaque_kind=REPO_RESULT_KIND)
+        ev = Evaluator(ctx.prog, inline=inline_except(PWC, *SCANS), opaque_kind=REPO_RESULT_KIND)
         res, st = ev.run_function(fi, args={'x': x, 'y': y, 'new_x': nx, 'method': Const(m)}, star_kwargs=kw)
         if ev.issues:
             raise AnalysisError(f"C13.1: interpolate not canonicalisable for '{m}': {ev.issues[:3]}")
-        sp = ModSpec(ctx.prog, 'traffic_weaver.process', {'x': x, 'y': y, 'new_x': nx, 'kwargs': Kw({}, kw)})
+        sp = ModSpec(ctx.prog, 'traffic_weaver.process', {'x': x, 'y': y, 'new_x': nx, 'kwargs': Kw({}, kw)}, inline=inline_except(PWC, *SCANS))
         want = sp.val(src)
         ctx.check(same(res, want), 'C13.1', f"method '{m}' evaluates the documented interpolant on the new grid",
                   f"code: {show(arr_term(res), 300)}\nspec: {show(arr_term(want), 300)}", fi.loc(), fi.qualname, f"method:{m}")
         ctx.sample({'rule': 'C13.1', 'method': m, 'value': show(arr_term(res), 160)})
-    api.check_api(ctx, 'C13.1', [fi, ctx.prog.func(PWC)], floor=6)
+    from .. import callgraph
+    funcs = [f for f in callgraph.reachable(ctx.prog, [fi]) if f.module.name.endswith('.process')]
+    api.check_api(ctx, 'C13.1', funcs, floor=6)
 
 
 def check_constant(ctx):
@@ -57,11 +59,11 @@ def check_constant(ctx):
     L, Ln = sym.sym('L'), sym.sym('Ln')
     x, y, nx = arr_param('x', length=L), arr_param('y', length=L), arr_param('new_x', length=Ln)
     for tag, left in (('left omitted', Const(None)), ('left given', S('left'))):
-        ev = Evaluator(ctx.prog, inline=lambda f: False, opaque_kind=REPO_RESULT_KIND)
+        ev = Evaluator(ctx.prog, inline=inline_except(*SCANS), opaque_kind=REPO_RESULT_KIND)
         res, st = ev.run_function(fi, args={'x': x, 'y': y, 'new_x': nx, 'left': left})
         if ev.issues:
             raise AnalysisError(f"C13.2: _piecewise_constant_interpolate not canonicalisable: {ev.issues[:3]}")
-        sp = ModSpec(ctx.prog, 'traffic_weaver.process', {'x': x, 'y': y, 'new_x': nx, 'left': left})
+        sp = ModSpec(ctx.prog, 'traffic_weaver.process', {'x': x, 'y': y, 'new_x': nx, 'left': left}, inline=inline_except(*SCANS))
         sp.exec('idx = find_closest_lower_equal_element_indices_to_values(x, new_x)\nge = new_x >= x[0]\nlt = new_x < x[0]\n')
         stores = [e for e in ev.events if e.kind == 'store']
         ctx.check(len(stores) == 2, 'C13.2', f"{tag}: two masked stores", f"{len(stores)} stores", fi.loc(), fi.qualname, f"n:{tag}")
